@@ -14,6 +14,10 @@ CHECKS = {
    text="Two real nodes run the real CASE initiator and responder over an adversarial network under a virtual clock. Exhaustive within the catalogs: every credential configuration (valid shapes; look-alike signer, wrong operational key, expired / not-yet-valid, different roots on either side) untouched, and for the acceptable ones every single attacker move on every first transmission of every handshake datagram - per TLV field bit flips / deletion / truncation / transplant from another honest handshake, header bit flips, loss, duplication, stale replay (thorough: every single bit of every datagram, and moves crossed with one extra loss) - on the full and on the resumption handshake. Oracle on both session tables: sessions only for acceptable credentials, bound to the right fabric / node id / CATs, directional keys equal whenever both ends hold a session, no panic, no hang, no datagram storm.",
    note="Cryptographic hardness assumed; invalid credentials limited to what the public generators can express (field-level certificate defects are C19's); one attacker move (+ one loss) per execution.",
    tech="exhaustive single-fault injection over the message/field alphabet on the real two-node handshake (bounded fault enumeration with a reference predicate)"),
+ "C02": dict(cat="model_checking",
+   text="Two real nodes run the real PASE initiator and responder over the adversarial network and virtual clock. Exhaustive within the catalogs: passcode pairs with and without an open window; a second concurrent initiator; 19/20/21 consecutive wrong attempts; every single attacker move of the C01 catalog on every PASE datagram (thorough: every bit); nine special / invalid curve points in place of pA and pB; the window state machine (close, close-and-reopen, expiry) placed before the delivery of each handshake datagram (thorough: crossed with each loss). Oracle: a session comes into existence only while a window is open, only with the right passcode and an unmodified handshake; keys agree when both ends hold one; failed proofs are counted and the window is revoked after twenty; the node is advertised as commissionable iff a window is open.",
+   note="Cryptographic hardness assumed; expiry polling by InteractionModel::run is outside this harness (an expired window closes at the next PASE request).",
+   tech="exhaustive single-fault injection over the message/field alphabet and window-action placement on the real two-node handshake"),
  "C04": dict(cat="model_checking",
    text="All histories of offered counters up to the stated depth over a relative boundary alphabet are executed on the real receive window (Session / GroupCtrStore) and compared step by step with a set-of-accepted-counters reference; states deduplicated on a canonical projection.",
    note="Assumes the window is only reached through post_recv; absolute counter values matter only through their distance to 0 / 2^32-1 (capped at 64); bounded depth.",
